@@ -1,6 +1,7 @@
 //! wwcheck — property-based checks for white-whale-core. See /verif/DESIGN.md.
 
 mod engine;
+mod incentives;
 mod mocks;
 mod pools;
 mod props;
